@@ -229,9 +229,16 @@ func c05Sizes(r *core.Report, pk string) {
 		ast.Inspect(fn.Body, func(n ast.Node) bool {
 			switch x := n.(type) {
 			case *ast.CallExpr:
-				if core.CalleeName(hi, x) == "io.NewSectionReader" && len(x.Args) == 3 {
-					if be, ok := core.Unparen(x.Args[1]).(*ast.BinaryExpr); ok && be.Op == token.ADD {
-						skip, _ = core.ConstInt(hi, be.Y)
+				// the element area starts at <bucket offset> + K: K is the constant added to the offset in the position
+				// argument of whatever read / section construction addresses the elements
+				nm := core.CalleeName(hi, x)
+				if nm == "io.NewSectionReader" || strings.HasSuffix(nm, ".ReadAt") {
+					for _, a := range x.Args {
+						if be, ok := core.Unparen(a).(*ast.BinaryExpr); ok && be.Op == token.ADD {
+							if v, isC := core.ConstInt(hi, be.Y); isC && strings.Contains(strings.ToLower(core.ExprStr(be.X)), "offset") {
+								skip = v
+							}
+						}
 					}
 				}
 			case *ast.BinaryExpr:
